@@ -65,7 +65,51 @@ def _structures(tier):
     return out
 
 
-def _lifted_estimate(ir, endo, exo, order, intercept, dof, ncol, miss, values=None):
+PRIOR_PARS = dict(rho=0.5, mu_minnesota=2.0, kappa=1, mean=(0.5, -0.25, 0.75), mu_mean=1.5)
+
+
+def _prior_objects(kind, ne):
+    """irispie prior objects for kind in {None, 'minnesota', 'mean', 'both'}"""
+    if not kind:
+        return None
+    from irispie.red_vars.prior_obs import MinnesotaPriorObs, MeanPriorObs
+    P = PRIOR_PARS
+    objs = []
+    if kind in ("minnesota", "both"):
+        objs.append(MinnesotaPriorObs(rho=P["rho"], mu=P["mu_minnesota"], kappa=P["kappa"]))
+    if kind in ("mean", "both"):
+        objs.append(MeanPriorObs(mean=np.array(P["mean"][:ne], dtype=float), mu=P["mu_mean"]))
+    return objs
+
+
+def _prior_dummies(kind, ne, nx, order, intercept):
+    """dummy observations written from the definition of the priors, as (regressor vector, regressand vector) pairs in the regressor order
+    [lag 1 of every variable, ..., lag p of every variable, exogenous, intercept]:
+    Minnesota (rho, mu, kappa): one observation per (lag l, variable i): regressor (l, i) = mu * l^kappa, all else 0; regressand i = mu * rho if l == 1 else 0
+    mean (m, mu), only with an intercept: every lag of variable i = m_i * mu, exogenous 0, intercept mu; regressand i = m_i * mu"""
+    P = PRIOR_PARS
+    nreg = ne * order + nx + (1 if intercept else 0)
+    out = []
+    if kind in ("minnesota", "both"):
+        for l in range(1, order + 1):
+            for i in range(ne):
+                reg = [0.0] * nreg
+                reg[(l - 1) * ne + i] = P["mu_minnesota"] * l ** P["kappa"]
+                y = [0.0] * ne
+                if l == 1:
+                    y[i] = P["mu_minnesota"] * P["rho"]
+                out.append((reg, y))
+    if kind in ("mean", "both") and intercept:
+        reg = [0.0] * nreg
+        for l in range(1, order + 1):
+            for i in range(ne):
+                reg[(l - 1) * ne + i] = P["mean"][i] * P["mu_mean"]
+        reg[-1] = P["mu_mean"]
+        out.append((reg, [P["mean"][i] * P["mu_mean"] for i in range(ne)]))
+    return out
+
+
+def _lifted_estimate(ir, endo, exo, order, intercept, dof, ncol, miss, values=None, prior=None):
     from irispie.red_vars import _estimators as est
     from irispie.fords import least_squares as ls, covariances as cv
     cap = {"solves": []}
@@ -103,7 +147,7 @@ def _lifted_estimate(ir, endo, exo, order, intercept, dof, ncol, miss, values=No
     db, span = _build_db(ir, endo, exo, ncol, miss, values=values)
     model = ir.RedVAR(list(endo), exogenous_names=list(exo) or None, order=order, intercept=intercept)
     with npproxy.installed(proxy, est, ls, cv, extra=[(est, "_estimate_variant", lifted)]), S.Path() as path:
-        out_db = model.estimate(db, span, omit_missing=True, dof_correction=dof)
+        out_db = model.estimate(db, span, omit_missing=True, dof_correction=dof, prior_obs=_prior_objects(prior, len(endo)))
     cap["contract"] = contract + [path.condition()]
     cap["model"] = model
     return cap
@@ -126,21 +170,23 @@ def _spec(cap, endo, exo, order, intercept, ncol):
     return periods
 
 
-def check_structure(run, ir, endo, exo, order, intercept, dof, ncol, miss):
-    key = f"var:endo={endo}:exo={exo}:order={order}:intercept={intercept}:dof={dof}:miss={sorted(miss)}"
-    case = dict(kind="var", endo=list(endo), exo=list(exo), order=order, intercept=intercept, dof=dof, ncol=ncol, miss=[list(m) for m in sorted(miss)])
-    finding = f"redvar:intercept={intercept}"
+def check_structure(run, ir, endo, exo, order, intercept, dof, ncol, miss, prior=None):
+    key = f"var:endo={endo}:exo={exo}:order={order}:intercept={intercept}:dof={dof}:miss={sorted(miss)}" + (f":prior={prior}" if prior else "")
+    case = dict(kind="var", endo=list(endo), exo=list(exo), order=order, intercept=intercept, dof=dof, ncol=ncol, miss=[list(m) for m in sorted(miss)], prior=prior)
+    finding = f"redvar:intercept={intercept}" + (f":prior={prior}" if prior else "")
     try:
-        cap = _lifted_estimate(ir, endo, exo, order, intercept, dof, ncol, miss)
+        cap = _lifted_estimate(ir, endo, exo, order, intercept, dof, ncol, miss, prior=prior)
     except S.SymbolicBranchError:
         raise
     except Exception as exc:
         run.counterexample(key, f"redvar:raises:intercept={intercept}", f"RedVAR(...intercept={intercept}).estimate raises {type(exc).__name__}: {str(exc)[:120]}", dict(case, values={}))
         return
-    if len(cap["solves"]) != 1:
+    if len(cap["solves"]) != (1 if not prior else (2 if (exo or intercept) else 1)) and not (prior and len(cap["solves"]) in (1, 2)):
         run.unknown(key, f"{len(cap['solves'])} calls of linalg.solve")
         return
-    Mx, My, beta = cap["solves"][0]
+    # with prior dummy observations an auxiliary regression (scale of the data) comes first; the LAST solve is the estimate
+    Mx, My, beta = cap["solves"][-1]
+    dummies = _prior_dummies(prior, len(endo), len(exo), order, intercept)
     periods = _spec(cap, endo, exo, order, intercept, ncol)
     fitted = [p for p in periods if p[3]]
     ne, nreg = len(endo), len(fitted[0][2]) if fitted else 0
@@ -154,11 +200,15 @@ def check_structure(run, ir, endo, exo, order, intercept, dof, ncol, miss):
             want = S.const(0)
             for (_, y, reg, _) in fitted:
                 want = want + reg[a] * reg[b]
+            for (dreg, dy) in dummies:
+                want = want + S.const(S.float_fraction(dreg[a] * dreg[b]))
             claims.append((f"Mx[{a},{b}]", Mx[a, b], want))
         for e in range(ne):
             want = S.const(0)
             for (_, y, reg, _) in fitted:
                 want = want + reg[a] * y[e]
+            for (dreg, dy) in dummies:
+                want = want + S.const(S.float_fraction(dreg[a] * dy[e]))
             claims.append((f"My[{a},{e}]", My[a, e], want))
     # (ii) residuals on every period in terms of beta (beta' is returned transposed: coefficient of regressor a in equation e = beta[a, e])
     names, out = cap["names"], cap["out"]
@@ -734,7 +784,8 @@ def main(run):
     run.stubs += ["moments: scipy.linalg.solve_discrete_lyapunov and numpy.linalg.solve -> fresh symbols (their arguments are compared with the companion form built from the definition)"]
     run.functions_encoded += ["red_vars._variants.Variant.{get_acov,get_mean,companion_T,_populate_companion_T,_get_companion_sigma}, red_vars.main.RedVAR.{get_acov,get_mean}"]
     run.bounds["moments"] = "1-2 (thorough: 3) endogenous variables, order 1-2 (thorough: 3), intercept on/off, autocovariances up to order 3 (thorough: 4); every coefficient, intercept and covariance entry a symbol"
-    run.outside += ["'noise-free data return the generating VAR' (needs uniqueness of the solve, i.e. LAPACK)", "prior dummy observations",
+    run.bounds["priors"] = "Minnesota (rho=0.5, mu=2, kappa=1) and mean (mu=1.5) prior dummy observations, alone and together, written from their definitions; hyperparameters concrete"
+    run.outside += ["'noise-free data return the generating VAR' (needs uniqueness of the solve, i.e. LAPACK)", "scaling of the prior by the data (irispie computes the scale and does not use it)",
                     "eigenvalues of the companion form (LAPACK eig; the companion matrix itself is decided)", "estimation with several variants (simulate is checked with 2 variants), resampling"]
     for args in _structures(run.tier):
         try:
@@ -743,6 +794,14 @@ def main(run):
             run.unknown(f"var:{args[:5]}", exc)
         except Exception as exc:
             run.error(f"var:{args[:5]}:{sorted(args[6])}", exc)
+    for (endo, exo, order, intercept, prior) in (((("a", "b"), ("x",), 1, True, "mean"), (("a",), ("x",), 2, True, "both"), (("a", "b"), (), 2, False, "minnesota")) +
+                                                 (((("a", "b"), ("x",), 2, True, "both"), (("a",), (), 1, True, "mean"), (("a", "b"), ("x",), 1, False, "both")) if run.tier == "thorough" else ())):
+        try:
+            check_structure(run, ir, endo, exo, order, intercept, False, 6 if order == 1 else 8, frozenset(), prior=prior)
+        except S.SymbolicBranchError as exc:
+            run.unknown(f"var:prior:{endo}:{exo}:{order}:{prior}", exc)
+        except Exception as exc:
+            run.error(f"var:prior:{endo}:{exo}:{order}:{prior}", exc)
     for (endo, exo, order, intercept) in ((("a",), (), 1, True), (("a", "b"), (), 1, True), (("a",), (), 2, True), (("a", "b"), (), 2, False), (("a", "b"), ("x",), 1, True),
                                           (("a",), ("x",), 2, True), (("a", "b"), ("x",), 2, True)) + (((("a", "b"), (), 3, True), (("a",), ("x",), 3, False)) if run.tier == "thorough" else ()):
         try:
@@ -782,7 +841,7 @@ def replay(case):
     db, span = _build_db(ir, endo, exo, ncol, miss, values=vals or None)
     model = ir.RedVAR(list(endo), exogenous_names=list(exo) or None, order=order, intercept=intercept)
     try:
-        out = model.estimate(db, span, omit_missing=True, dof_correction=dof)
+        out = model.estimate(db, span, omit_missing=True, dof_correction=dof, prior_obs=_prior_objects(case.get("prior"), len(endo)))
     except Exception as exc:
         return True, f"estimate raises {type(exc).__name__}: {exc}"
     v = model._variants[0]
@@ -811,7 +870,15 @@ def replay(case):
                 worst, msg = abs(got - u[e]), f"stored residual of {n} at {t}: {got!r} vs {u[e]!r}"
         X.append(reg); Y.append(y); U.append(u)
     X, Y, U = np.array(X).T, np.array(Y).T, np.array(U).T
-    orth = np.abs(X @ U.T).max() if X.size else 0.0
+    if case.get("prior"):
+        # augmented least squares: the coefficients solve the normal equations of data + dummy observations
+        dums = _prior_dummies(case["prior"], len(endo), len(exo), order, intercept)
+        Xa = np.hstack([X] + [np.array(d[0]).reshape(-1, 1) for d in dums]) if dums else X
+        Ya = np.hstack([Y] + [np.array(d[1]).reshape(-1, 1) for d in dums]) if dums else Y
+        coef = np.hstack([A, B] + ([np.asarray(c, dtype=float).reshape(-1, 1)] if intercept else []))
+        orth = np.abs(Xa @ (Ya - coef @ Xa).T).max() if Xa.size else 0.0
+    else:
+        orth = np.abs(X @ U.T).max() if X.size else 0.0
     if orth > max(worst, 0):
         worst, msg = max(worst, orth), f"residuals not orthogonal to regressors: {orth!r}"
     if tuple(v.fitted_periods) != tuple(start + t for t in fitted):
